@@ -218,7 +218,38 @@ func sanitize(s string) string {
 	}, s)
 }
 
+// Build aborts: the program under test refusing to build the unchanged source tree for a
+// supported configuration is its behaviour, not trouble of the tooling. tree.go notes such
+// aborts here; the test's evidence turns them into violations when it is flushed.
+type buildAbort struct {
+	Config string `json:"config"`
+	Output string `json:"output"`
+}
+
+var (
+	buildAbortMu sync.Mutex
+	buildAborts  []buildAbort
+)
+
+func noteBuildAbort(config, output string) {
+	buildAbortMu.Lock()
+	defer buildAbortMu.Unlock()
+	buildAborts = append(buildAborts, buildAbort{config, output})
+}
+
 func (e *Ev) Flush(t testing.TB) {
+	buildAbortMu.Lock()
+	aborts := buildAborts
+	buildAborts = nil
+	buildAbortMu.Unlock()
+	seenAbort := map[string]bool{}
+	for _, a := range aborts {
+		if seenAbort[a.Config] {
+			continue
+		}
+		seenAbort[a.Config] = true
+		e.Violate(a, "build-abort:"+a.Config, "the build of the source tree aborts for %s:\n%s", a.Config, a.Output)
+	}
 	e.mu.Lock()
 	defer e.mu.Unlock()
 	if e.lastFail != nil && t.Failed() {
